@@ -288,8 +288,7 @@ func GetRoles(P *Program) *Roles {
 	}, hf)
 	R.CallbackMatch = one("CallbackMatch", func(fn *ssa.Function) bool {
 		res := fn.Signature.Results()
-		return res.Len() == 1 && isBool(res.At(0).Type()) && len(callsTo(fn, idOIDCConfig+".GetCallbackUri")) > 0 &&
-			len(callsTo(fn, pkgHTTP+".GetPathQueryFragment")) > 0
+		return res.Len() == 1 && isBool(res.At(0).Type()) && len(callsTo(fn, idOIDCConfig+".GetCallbackUri")) > 0
 	}, hf)
 	// constructor
 	for _, fn := range P.Funcs {
